@@ -537,25 +537,26 @@ type c11MR struct {
 }
 
 type c11Stmt struct {
-	Family   string // direct | agg | timewin | join | mr
-	Distinct bool
-	Items    []*c11Item
-	Source   string
-	SrcAlias string
-	SrcAs    bool
-	Join     *c11Join
-	Join2    *c11Join // optional second JOIN clause
-	MR       *c11MR
-	Where    *c11Pred
-	Group    []c11Col
-	Win      *c11Win
-	Having   *c11Pred
-	With     []c11Opt
-	Order    []c11Order
-	Limit    int
-	Undoc    string   // "" | doubled_quote | backslash_quote: a literal uses an escape the docs do not define
-	Hostile  []string // hostile features present (for Attrs)
-	LitPool  []string // literal contents rows should draw from
+	Family    string // direct | agg | timewin | join | mr
+	Distinct  bool
+	Items     []*c11Item
+	Source    string
+	SrcAlias  string
+	SrcAs     bool
+	Join      *c11Join
+	Join2     *c11Join // optional second JOIN clause
+	MR        *c11MR
+	Where     *c11Pred
+	Group     []c11Col
+	Win       *c11Win
+	Having    *c11Pred
+	With      []c11Opt
+	Order     []c11Order
+	Limit     int
+	LimitZero bool     // LIMIT 0 is written (Config.Limit 0)
+	Undoc     string   // "" | doubled_quote | backslash_quote: a literal uses an escape the docs do not define
+	Hostile   []string // hostile features present (for Attrs)
+	LitPool   []string // literal contents rows should draw from
 }
 
 func (s *c11Stmt) addHostile(h string) {
@@ -674,7 +675,7 @@ func (s *c11Stmt) toks() []c11Tok {
 			}
 		}
 	}
-	if s.Limit > 0 {
+	if s.Limit > 0 || s.LimitZero {
 		t = append(t, kw("LIMIT")...)
 		t = append(t, num(fmt.Sprint(s.Limit)))
 	}
@@ -980,6 +981,8 @@ func c11GenOrderLimit(r *rand.Rand, s *c11Stmt) {
 	}
 	if r.Intn(3) == 0 {
 		s.Limit = pick(r, []int{1, 2, 3, 5, 10, 100, 1000})
+	} else if r.Intn(10) == 0 {
+		s.LimitZero = true // the boundary value, written after whichever clause comes last
 	}
 }
 
@@ -1112,6 +1115,8 @@ func c11GenAgg(r *rand.Rand, timeWin bool) *c11Stmt {
 	}
 	if r.Intn(4) == 0 {
 		s.Limit = pick(r, []int{1, 2, 3, 5, 10, 100})
+	} else if r.Intn(8) == 0 {
+		s.LimitZero = true // the boundary value, written after whichever clause comes last (often GROUP BY itself)
 	}
 	return s
 }
@@ -1209,7 +1214,7 @@ func c11GenMR(r *rand.Rand) *c11Stmt {
 	if r.Intn(2) == 0 {
 		m.Partition = []string{"dev", "k"}[:1+r.Intn(2)]
 	}
-	m.Order = []c11Order{{Key: pick(r, []string{"ts", "from_ts", "order_ts"}), Dir: pick(r, []string{"", "", "ASC"}), Want: "ASC"}}
+	m.Order = []c11Order{{Key: pick(r, []string{"ts", "from_ts", "order_ts", "ts", "timestamp", "TimeStamp"}), Dir: pick(r, []string{"", "", "ASC"}), Want: "ASC"}}
 	syms := []string{"A", "B", "C", "Up", "Dn"}
 	r.Shuffle(len(syms), func(i, j int) { syms[i], syms[j] = syms[j], syms[i] })
 	n := 1 + r.Intn(3)
